@@ -176,8 +176,8 @@ class Ctx:
 def run_driver(cmd, timeout=300, env=None, cwd=None, stdin=None):
     """run a driver; returns (rc, output, timed_out)"""
     e = dict(os.environ)
-    e.setdefault("ASAN_OPTIONS", "detect_leaks=0:abort_on_error=0:exitcode=99")
-    e.setdefault("UBSAN_OPTIONS", "print_stacktrace=1:halt_on_error=1:exitcode=98")
+    e.setdefault("ASAN_OPTIONS", "detect_leaks=0:abort_on_error=1:handle_abort=0:handle_segv=0")
+    e.setdefault("UBSAN_OPTIONS", "print_stacktrace=1:halt_on_error=1:abort_on_error=1")
     if env:
         e.update(env)
     try:
